@@ -386,7 +386,7 @@ def setup(root):
             continue
         if not c.regen(cfg):
             print("\n".join(c.notes)); rc_all = 1
-        targets += [cfg["module"], "drv_" + pid.lower()]
+        targets += [cfg["module"], "drv_" + pid.lower()] + cfg.get("tie_modules", [])
     with lake_lock(root):
         rc, out = run(["lake", "build"] + targets, cwd=os.path.join(root, "lean"), timeout=7200)
     print(out[-3000:])
@@ -420,16 +420,21 @@ def main(root, argv):
     rcg, outg = c.go_build()
     ok_gen = c.regen(cfg) if rcg == 0 else (not cfg.get("gen"))
     module = cfg["module"]
-    rc, out = c.lake_build([module, "drv_" + pid.lower()])
+    # tie_modules: theorems that tie REGENERATED definitions (lean/M3d/Gen) to the hand-written models;
+    # they are obligations of the property like the theorems of Props/Cxx.lean
+    ties = cfg.get("tie_modules", [])
+    rc, out = c.lake_build([module] + ties + ["drv_" + pid.lower()])
     proofs_ok = rc == 0 and ok_gen
     if rc != 0:
         errs = [l for l in out.splitlines() if "error" in l][:20]
         c.notes.append("lake build failed: " + " | ".join(errs))
         # obligations are still counted; nothing is discharged for a module that does not build
-        names, _ = c.theorem_names(module)
-        c.obligations += names
+        for m in [module] + ties:
+            names, _ = c.theorem_names(m)
+            c.obligations += names
     else:
-        c.audit(module)
+        for m in [module] + ties:
+            c.audit(m)
         if tier == "thorough":
             with lake_lock(root):
                 rc2, out2 = run(["lake", "env", "leanchecker", module], cwd=c.lean, timeout=3600)
